@@ -47,6 +47,9 @@ Clause(c) ==
       \* the callback has not been called with nil, the listener is there
       [] c = "active"     -> /\ Count("nil", R.cblog) = 0 /\ ~R.exited
                              /\ \A k \in 1..Len(R.replies) : R.replies[k][2] = 1
+      \* two services on one connection: every query event has a subject of its own, a request on it is delivered to
+      \* one subscription, answered once, and only that query event's callback sees it (evaluated by the harness)
+      [] c = "fresh"      -> R.fresh
       [] c = "serialized" -> ~R.overlap     \* no query callback ran while another callback of the resource's group was inside
       [] OTHER -> FALSE
 Clauses == {"serialized", "one-reply", "content", "callback-per-request", "nil-once", "nil-at-most-once", "nil-last", "failed-sub", "released"}
